@@ -140,7 +140,11 @@ def run_changes(check, idx, only, tier, report):
             if "patch" in m:
                 r = subprocess.run(["git", "-C", repo, "apply", os.path.join(VERIF, "mutants", m["patch"])], capture_output=True, text=True)
             else:
-                r = subprocess.run(["git", "-C", repo, "revert", "-n", m["revert"]], capture_output=True, text=True)
+                shas = m["revert"] if isinstance(m["revert"], list) else [m["revert"]]
+                for sha in shas:
+                    r = subprocess.run(["git", "-C", repo, "revert", "-n", sha], capture_output=True, text=True)
+                    if r.returncode != 0:
+                        break
             if r.returncode != 0:
                 print("mutant %s: does not apply: %s" % (m["name"], (r.stderr or r.stdout)[:300]))
                 failed += 1
